@@ -37,8 +37,8 @@ var c34Tweaks []func(shard int) func(o *node.Options)
 
 func init() {
 	kit.Register(&kit.Spec{
-		ID:   "C34",
-		Rule: "seeded histories on a live node: submissions (fresh, conflicting on an outpoint held by the pool, spending outputs already spent on chain), RemoveTransaction, MaybeAcceptTransaction, blocks containing pool txs and conflicting non-pool txs followed by the node's post-block cleanup, depth-1/2 reorganisations, pool size bound shrunk so admission hits the limit, checkpoint snapshots; after every step the hooked internal snapshot is compared with invariants recomputed from the held txs. distinct = (history, step kind, outcome); non-trivial = step changed or probed a non-empty pool",
+		ID:      "C34",
+		Rule:    "seeded histories on a live node: submissions (fresh, conflicting on an outpoint held by the pool, spending outputs already spent on chain), RemoveTransaction, MaybeAcceptTransaction, blocks containing pool txs and conflicting non-pool txs followed by the node's post-block cleanup, depth-1/2 reorganisations, pool size bound shrunk so admission hits the limit, checkpoint snapshots; after every step the hooked internal snapshot is compared with invariants recomputed from the held txs. distinct = (history, step kind, outcome); non-trivial = step changed or probed a non-empty pool",
 		Shards:  func(tier string) int { return 8 },
 		Run:     runC34,
 		Require: []string{"steps", "invariant_checks", "submit_accepted", "submit_rejected_conflict", "blocks_with_pool_txs", "blocks_with_conflicting_txs", "removals", "capacity_rejections", "reorgs", "snapshots", "nonempty_pool_checks"},
